@@ -172,7 +172,7 @@ def run_property(prop, tier, procs=16, only=None, tv=True):
     claimed = {j['label']: j.get('claimed', True) for j in jobs}
     wv = None
     if tv and recs and not any(r['violations'] for r in recs):
-        wv = witness_validation(prop, recs, 60 if tier == 'quick' else 200)
+        wv = witness_validation(prop, recs, 150 if tier == "quick" else 300)
         if wv:
             for d in wv['divergences']:
                 setup_errors.append('witness validation: ' + d)
@@ -364,7 +364,28 @@ def witness_validation(prop, recs, limit):
                 if r['status'] == 'agreed':
                     res['agreed'] += 1
                 elif r['status'] == 'diverged':
-                    res['divergences'].append('%s: goals %s are false on the real build for a model of the path assumptions' % (r['label'], r['false_goals']))
+                    # the real build violates a goal on an input the solver produced (a model of the path's assumptions) although
+                    # the encoding discharged that goal: the encoding is blind here (e.g. a branch on the dtype of a real
+                    # array).  The concrete counterexample is confirmed by the ordinary replay judge and reported as a violation
+                    # of the real code; if it does not confirm it stays an encoding error.
+                    from . import explore
+                    wit = [w for w in wits if w['label'] == r['label']][0]
+                    promoted = False
+                    for gname in r['false_goals'][:1]:
+                        cex = dict(wit, goal=gname, notes=['witness replay: goal discharged in the encoding, false on the real build'])
+                        rp_path = explore.write_replay(os.path.join(VERIF, 'replays'), cex)
+                        rp = explore.replay_file(rp_path)
+                        if rp.get('status') == 'reproduced':
+                            for rec in recs:
+                                if rec['label'] == r['label']:
+                                    rec['violations'].append(dict(goal=gname + ' [witness replay on the real build]', replay=rp_path, inputs=wit['inputs']))
+                                    promoted = True
+                                    break
+                    res.setdefault('violations_found_by_replay', 0)
+                    if promoted:
+                        res['violations_found_by_replay'] += 1
+                    else:
+                        res['divergences'].append('%s: goals %s are false on the real build for a model of the path assumptions' % (r['label'], r['false_goals']))
                 else:
                     res['skipped'].append('%s: %s %s' % (r['label'], r['status'], r.get('error') or r.get('which') or ''))
     except subprocess.TimeoutExpired:
